@@ -111,14 +111,14 @@ def run_eclose(case):
 
 @st.composite
 def dfa_cases(draw, tier):
-    spec = draw(G.dfa_specs(max_states=6))
+    spec = draw(G.dfa_specs(max_states=6, odd=True))
     ws = draw(st.lists(G.words(spec["S"], 10), max_size=3))
     return {"dfa": spec, "words": ws}
 
 
 @st.composite
 def nfa_cases(draw, tier):
-    spec = draw(G.mixed_nfa_specs(max_states=5 if tier == "quick" else 7))
+    spec = draw(G.mixed_nfa_specs(max_states=5 if tier == "quick" else 7, odd=True))
     ws = draw(st.lists(G.words(spec["S"], 9), max_size=3))
     return {"nfa": spec, "words": ws}
 
